@@ -254,10 +254,12 @@ class C10(flow.Spec):
                 t = ('cmd', self.gen_ws(rng, True), es)
             elif r < 0.80 and not have_elf:
                 have_elf = True
-                nsec = rng.choice([1, 1, 2, 3, 5, 8, 12])
+                nsec = rng.choice([0, 1, 1, 2, 3, 5, 8, 12])
                 strtab, idx = self.gen_strtab(rng, nsec)
                 saddr = sbase + ((-len(strtab)) % 4096)
-                sh = rng.randrange(nsec)
+                # an empty section table has no string-table section: the index is then meaningless (0 as GRUB writes it)
+                sh = rng.randrange(nsec) if nsec else 0
+                elf_last = (nsec == 0 and rng.random() < 0.7)
                 secs = []
                 for i in range(nsec):
                     size = 0 if rng.random() < 0.25 else rng.choice([1, 0x1000, self.u64(rng, safe) or 1])
@@ -282,6 +284,11 @@ class C10(flow.Spec):
                 t = ('other', ty, [rng.randrange(256) if not safe else rng.choice([0, 1, 2]) for _ in range(rng.choice([0, 0, 1, 4, 7, 8, 9, 12, 20, 40]))])
             p = payload(t)
             tags.append((t, [rng.randrange(256) if not safe else 0 for _ in range(pad_len(8 + len(p)))]))
+        if have_elf and locals().get('elf_last'):
+            # the empty ELF tag directly before the terminator: nothing but the 8-byte end tag lies between it and the
+            # PROT_NONE page that follows the block
+            k = [i for i, (t, _) in enumerate(tags) if t[0] == 'elf'][0]
+            tags.append(tags.pop(k))
         mb = {'reserved': rng.choice([0, 0, M32]) if not safe else 0, 'tags': tags}
         return mb, strtab, sbase
 
@@ -352,7 +359,7 @@ class C10(flow.Spec):
                         put(o + 8, rng.choice([n + 1, n + 2, 0xffff, 0x10000 + n, 0]))
                     elif which == 1:
                         put(o + 16, rng.choice([n, n + 1, 0xffff, 0x10000, 0xffffffff, 0x7fffffff]))
-                    else:
+                    elif n:
                         s = rng.randrange(n)
                         put(o + 20 + 64 * s, rng.choice([len(strtab) - 1, len(strtab), len(strtab) + 1, 4096, 0xffffffff, 0x80000000]))
                 notes.append('elfcount')
